@@ -116,9 +116,12 @@ def pretty(calls):
 
 
 # ---- random generation of valid call sequences ------------------------------------------------------
+BIG_ATOMS = True   # set False (temporarily) to keep atoms and ids small (consumers that index tables by atom / id)
+
+
 def r_atom(rnd, small=6):
     r = rnd.random()
-    if r < 0.8:
+    if r < 0.8 or not BIG_ATOMS:
         return rnd.randint(1, small)
     if r < 0.9:
         return rnd.choice([ATOM_MAX, ATOM_MAX - 1, 2 ** 16, 4097, 1])
@@ -186,7 +189,7 @@ def r_directive(rnd, small=6, theory=True, kinds=None):
                 [r_lit(rnd, small) for _ in range(r_len(rnd, 3))])
     if k == 12:
         return (12, rnd.choice([0, 1, 2, INT_MAX]), rnd.choice([0, 1, 3, INT_MAX]), [r_lit(rnd, small) for _ in range(r_len(rnd, 3))])
-    rid = lambda: rnd.choice([0, 1, 2, 3, 7, ID_MAX, 2 ** 31, rnd.randint(0, ID_MAX)]) if rnd.random() < 0.3 else rnd.randint(0, 5)
+    rid = lambda: rnd.choice([0, 1, 2, 3, 7, ID_MAX, 2 ** 31, rnd.randint(0, ID_MAX)]) if (rnd.random() < 0.3 and BIG_ATOMS) else rnd.randint(0, 5)
     if k == 13:
         return (13, rid(), r_int(rnd))
     if k == 14:
